@@ -90,15 +90,18 @@ Section Bytes.
   Variables enc dec : key -> ref -> list N -> list N.
   Hypothesis dec_enc : forall k r x, dec k r (enc k r x) = x.
 
+  Lemma crypt_inactive (f : key -> ref -> list N -> list N) ek r x : crypt_with key f ek r false x = x.
+  Proof. unfold crypt_with. destruct ek; reflexivity. Qed.
+
   (* what the copier hands to the Writer is what a reader of the source sees
      after decryption *)
-  Lemma copy_data_payload g sk s d disk data p :
-    copy_data key dec g sk s d disk = Ok data ->
-    payload key dec g sk s d disk = Ok p ->
+  Lemma copy_data_payload g sk splain s d disk data p :
+    copy_data key dec g sk splain s d disk = Ok data ->
+    payload key dec g sk splain s d disk = Ok p ->
     data = p.
   Proof.
     unfold copy_data, payload, copier_decrypts, reader_decrypts, stream_recipe.
-    destruct sk as [k|]; cbn [is_some].
+    destruct (cipher_active sk splain s).
     - destruct (head_is_crypt g (dget K_Filter d)) as [h|c] eqn:Eh; [|discriminate].
       rewrite (probe_agrees _ _ _ Eh). destruct h.
       + destruct (crypt_kind g d) as [[|]|c]; try discriminate. intros [= <-] [= <-]. reflexivity.
@@ -106,22 +109,25 @@ Section Bytes.
     - intros [= <-] [= <-]. reflexivity.
   Qed.
 
-  (* ... and a reader of the target gets it back, whatever the two ciphers and
-     the target version *)
-  Lemma copy_stream_payload g gt tr sk tk ver s t d n d3 disk data disk' p h :
+  (* ... and a reader of the target gets it back, whatever the two ciphers, the
+     references exempt by identity in either file, the look of the dictionary
+     and the target version *)
+  Lemma copy_stream_payload g gt tr sk tk splain tplain ver s t d n d3 disk data disk' p h :
     renamed g tr (OStream d n) (OStream d3 n) ->
     head_is_crypt g (dget K_Filter d) = Ok h ->
-    copy_data key dec g sk s d disk = Ok data ->
-    write_data key enc ver tk gt t d3 data = Ok disk' ->
-    payload key dec g sk s d disk = Ok p ->
-    payload key dec gt tk t d3 disk' = Ok p.
+    copy_data key dec g sk splain s d disk = Ok data ->
+    write_data key enc ver tk tplain gt t d3 data = Ok disk' ->
+    payload key dec g sk splain s d disk = Ok p ->
+    payload key dec gt tk tplain t d3 disk' = Ok p.
   Proof.
-    intros Hr Hh Hc Hw Hp. rewrite (copy_data_payload _ _ _ _ _ _ _ Hc Hp) in *. clear Hc Hp data.
+    intros Hr Hh Hc Hw Hp. rewrite (copy_data_payload _ _ _ _ _ _ _ _ Hc Hp) in *. clear Hc Hp data.
     pose proof (copy_stream_exempt g gt tr d n d3 h Hr Hh) as Ht.
     unfold write_data, writer_encrypts in Hw. unfold payload, reader_decrypts.
-    destruct tk as [k|]; cbn [is_some] in *.
-    - rewrite Ht. rewrite (probe_agrees _ _ _ Ht) in Hw. injection Hw as <-.
-      destruct h; cbn [negb crypt_with]; [reflexivity|]. now rewrite dec_enc.
+    unfold cipher_active in *. destruct tk as [k|]; cbn [is_some andb] in *.
+    - destruct (negb (mem t tplain)).
+      + rewrite Ht. rewrite (probe_agrees _ _ _ Ht) in Hw. injection Hw as <-.
+        destruct h; cbn [negb crypt_with]; [reflexivity|]. now rewrite dec_enc.
+      + injection Hw as <-. reflexivity.
     - injection Hw as <-. reflexivity.
   Qed.
 
@@ -131,31 +137,37 @@ Section Bytes.
   Hypothesis unfilter_renamed : forall g tr f f' q q' x,
     renamed g tr f f' -> renamed g tr q q' -> unfilter f' q' x = unfilter f q x.
 
-  Definition decoded_src (g : source) (sk : option key) (s : ref) (d : dict) (disk : list N) : res (list N) :=
-    match payload key dec g sk s d disk with
+  Definition decoded_src (g : source) (sk : option key) (splain : list ref) (s : ref) (d : dict) (disk : list N) : res (list N) :=
+    match payload key dec g sk splain s d disk with
     | Err c => Err c
     | Ok p => Ok (unfilter (dget K_Filter (inline_dict g d)) (dget K_DecodeParms (inline_dict g d)) p)
     end.
 
   (* the target dictionary holds /Filter and /DecodeParms directly *)
-  Definition decoded_tgt (g : source) (tk : option key) (t : ref) (d : dict) (disk : list N) : res (list N) :=
-    match payload key dec g tk t d disk with
+  Definition decoded_tgt (g : source) (tk : option key) (tplain : list ref) (t : ref) (d : dict) (disk : list N) : res (list N) :=
+    match payload key dec g tk tplain t d disk with
     | Err c => Err c
     | Ok p => Ok (unfilter (dget K_Filter d) (dget K_DecodeParms d) p)
     end.
 
-  Theorem copy_stream_bytes g gt tr sk tk ver s t d n d3 disk data disk' x h :
+  Theorem copy_stream_bytes g gt tr sk tk splain tplain ver s t d n d3 disk data disk' x h :
     renamed g tr (OStream d n) (OStream d3 n) ->
     head_is_crypt g (dget K_Filter d) = Ok h ->
-    copy_data key dec g sk s d disk = Ok data ->
-    write_data key enc ver tk gt t d3 data = Ok disk' ->
-    decoded_src g sk s d disk = Ok x ->
-    decoded_tgt gt tk t d3 disk' = Ok x.
+    copy_data key dec g sk splain s d disk = Ok data ->
+    write_data key enc ver tk tplain gt t d3 data = Ok disk' ->
+    decoded_src g sk splain s d disk = Ok x ->
+    decoded_tgt gt tk tplain t d3 disk' = Ok x.
   Proof.
     intros Hr Hh Hc Hw Hx. unfold decoded_src in Hx.
-    destruct (payload key dec g sk s d disk) as [p|c] eqn:Ep; [|discriminate]. injection Hx as <-.
-    unfold decoded_tgt. rewrite (copy_stream_payload _ _ _ _ _ _ _ _ _ _ _ _ _ _ _ _ Hr Hh Hc Hw Ep).
+    destruct (payload key dec g sk splain s d disk) as [p|c] eqn:Ep; [|discriminate]. injection Hx as <-.
+    unfold decoded_tgt. rewrite (copy_stream_payload _ _ _ _ _ _ _ _ _ _ _ _ _ _ _ _ _ _ Hr Hh Hc Hw Ep).
     f_equal. inversion Hr as [| | | | |d0 n0 d1 d2 d3' H1 H2 H3]; subst.
     apply (unfilter_renamed g tr); eapply renamed_stream_get; eassumption.
   Qed.
+
+  (* a copied value does not depend on what the copier does afterwards: the data
+     handed over is a function of the source file alone *)
+  Lemma copy_data_source_only g sk splain s d disk : forall a b,
+    copy_data key dec g sk splain s d disk = Ok a -> copy_data key dec g sk splain s d disk = Ok b -> a = b.
+  Proof. intros a b Ha Hb. rewrite Ha in Hb. now injection Hb. Qed.
 End Bytes.
